@@ -195,4 +195,22 @@ inductive Mode where
   | fragment
   deriving Repr, DecidableEq, Inhabited
 
+/-! ### `check_qname` (/repo a5fafb0), the test -/
+
+/-- The test of `check_qname` (/repo a5fafb0): `prefix.is_empty() && prefix.start() != 0`.
+    xmlparser reports an ABSENT prefix as `"".into()` (a `StrSpan` with start 0 that is not a
+    slice of the source) and a colon with nothing in front of it (`<:a/>`) as an empty SLICE of the
+    source, which cannot start at 0 (a name never stands at the very start of the text). -/
+def StrSpan.bareColon (pfx : StrSpan) : Bool := pfx.text.isEmpty && pfx.start != 0
+
+/-- No name of the token is written with a colon and nothing in front of it (`check_qname` lets
+    the token pass). -/
+def Token.prefixOk : Token → Bool
+  | .attribute pfx _ _ _ => !pfx.bareColon
+  | .elementStart pfx _ _ => !pfx.bareColon
+  | .elementEnd (.close pfx _) _ => !pfx.bareColon
+  | _ => true
+
+def tokensPrefixOk (ts : List Token) : Bool := ts.all Token.prefixOk
+
 end XotModel
